@@ -119,6 +119,9 @@ class Generator(Curve, Point):
         if r < 1 or r >= order or s < 1 or s >= order:  # type: ignore[operator]
             # no key verifies an out-of-range signature
             return []
+        if r >= self._p:
+            # r is compared with an x coordinate, which is below the field prime
+            return []
 
         try:
             points = self.points_for_x(r)
